@@ -97,57 +97,6 @@ def _seg_matches(c, obj, spec):
                    ops.Iff(g('large_arc'), spec[5]), ops.Iff(g('sweep'), spec[6]), ops.eq(g('end'), spec[7]))
 
 
-def _one_step(c, letter, pre_command, pre_absolute):
-    """letter: explicit command letter, or None for an implicit continuation of pre_command"""
-    TokenStack, SegList = _models(c)
-    path = c.new('path.Path')
-    cur = c.cplx('cur')
-    eff = letter if letter is not None else (pre_command if pre_absolute else pre_command.lower())
-    up = eff.upper()
-    start = c.cplx('start') if not (letter in ('M', 'm')) or True else None
-    # prev curve information is carried by `command` + the last segment (coupling invariant)
-    last = None
-    prev = ('other',)
-    if pre_command in ('C', 'S'):
-        c2 = c.cplx('prev_c2')
-        last = c.new('path.CubicBezier', c.cplx('prev_s'), c.cplx('prev_c1'), c2, cur)
-        prev = ('cubic', c2)
-    elif pre_command in ('Q', 'T'):
-        cq = c.cplx('prev_c')
-        last = c.new('path.QuadraticBezier', c.cplx('prev_s'), cq, cur)
-        prev = ('quad', cq)
-    args = [c.real('a%d' % i) for i in range(svg.ARITY[up])]
-    from pyvc import interp as I
-    toks = ([letter] if letter is not None else []) + [I.Num(a) for a in args]
-    seglist = SegList(last)
-    made_arcs = []
-    _arc_constructor_contract(c, made_arcs)
-    post = {}
-    calls = [0]
-
-    def inv(v):
-        calls[0] += 1
-        if calls[0] == 3:
-            post.update(cur=v['current_pos'], start=v['start_pos'], command=v['command'], absolute=v.get('absolute'))
-        return True
-
-    def havoc(v):
-        v['elements'] = TokenStack(toks)
-        v['segments'] = seglist
-        v['current_pos'] = cur
-        v['start_pos'] = start
-        v['command'] = pre_command
-        if letter is None:
-            v['absolute'] = pre_absolute
-        c.set(v['self'], '_segments', seglist)
-    c.loop_invariant('path.Path._parse_path', 0, inv, havoc, name='command-loop')
-    out = c.outcome(lambda: c.callm(path, '_parse_path', '', cur))
-    # the loop rule cuts the path after one iteration, so a normal outcome never reaches here
-    c.ensures('one-iteration-raises-nothing[%s after %s]' % (eff, pre_command), out.kind == 'ok',
-              exception=out.exc, message=out.msg)
-    return None
-
-
 def _check_post(c, letter, pre_command, pre_absolute):
     """drives one iteration and compares with the reference step (runs inside the loop rule's
     third invariant call so that it sees the post-state)"""
@@ -270,7 +219,7 @@ def loop_entry_state_is_the_initial_spec_state(c):
             c.ensures('entry:command-is-None', v['command'] is None)
             c.ensures('entry:start_pos-is-None', v['start_pos'] is None)
             c.ensures('entry:pen-at-current_pos', c.py_eq(v['current_pos'], cur))
-            c.ensures('entry:segments-is-the-path-own-empty-list', v['segments'] is c.get(path, '_segments') and c.length(v['segments']) == 0)
+            c.ensures('entry:segments-is-the-path-own-empty-list', v['segments'] is c.get(path2, '_segments') and c.length(v['segments']) == 0)
         return True
     path2 = c.new('path.Path')
     c.loop_invariant('path.Path._parse_path', 0, inv, lambda v: v.__setitem__('elements', []), name='command-loop')
@@ -303,12 +252,12 @@ def _reference_tokens(s):
     exponent?; separators: whitespace and commas; a sign or a '.' may start a new number; arc flags
     are single characters 0/1 that need no separator)"""
     import re
-    num = re.compile(r'[-+]?(?:[0-9]+\\.?[0-9]*|\\.[0-9]+)(?:[eE][-+]?[0-9]+)?')
+    num = re.compile(r'[-+]?(?:[0-9]+\.?[0-9]*|\.[0-9]+)(?:[eE][-+]?[0-9]+)?')
     out, i, cmd, argi = [], 0, None, 0
     arity = {'M': 2, 'Z': 0, 'L': 2, 'H': 1, 'V': 1, 'C': 6, 'S': 4, 'Q': 4, 'T': 2, 'A': 7}
     while i < len(s):
         ch = s[i]
-        if ch in ' \\t\\n\\r,':
+        if ch in ' \t\n\r,':
             i += 1
         elif ch in 'MmZzLlHhVvCcSsQqTtAa':
             out.append(ch)
